@@ -79,12 +79,31 @@ func init() {
 		}
 		out := &bytes.Buffer{}
 		m := astits.NewMuxer(context.Background(), out)
-		for _, p := range ps {
-			if _, err := m.WritePacket(p); err != nil {
+		skip := 0
+		if c.boolean("afterTables") {
+			// the muxer has already been used (tables and a PES written): WritePacket output follows, nothing else
+			m.AddElementaryStream(astits.PMTElementaryStream{ElementaryPID: 0x100, StreamType: astits.StreamTypeH264Video})
+			m.SetPCRPID(0x100)
+			if _, err := m.WriteTables(); err != nil {
 				return "err"
 			}
+			if _, err := m.WriteData(&astits.MuxerData{PID: 0x100, PES: &astits.PESData{Header: &astits.PESHeader{StreamID: 0xe0}, Data: []byte{1, 2, 3, 4, 5}}}); err != nil {
+				return "err"
+			}
+			skip = out.Len()
 		}
-		return "ok:" + hex.EncodeToString(out.Bytes())
+		total := 0
+		for _, p := range ps {
+			n, err := m.WritePacket(p)
+			if err != nil {
+				return "err"
+			}
+			total += n
+		}
+		if total != out.Len()-skip {
+			return fmt.Sprintf("count:%d written:%d", total, out.Len()-skip)
+		}
+		return "ok:" + hex.EncodeToString(out.Bytes()[skip:])
 	}
 	ops["reemit"] = func(c *Case) string {
 		in := unhex(c.str("hex"))
